@@ -664,13 +664,40 @@ func checkC16(c *Case, trace bool) *CaseResult {
 		case wm.mon.decoratorMediatedCycle(wm.mon.role):
 			v.Class = "decorator-mediated-cycle"
 			res.Stats["diff.c16.decorator-mediated-cycle"]++
-		case failedInvokeBefore(a, at) || failedInvokeBefore(b, len(t.Ops)):
+		case failedInvokeBefore(a, at) || failedInvokeBefore(b, len(t.Ops)) || builtSetsDiffer(a, b, mapping):
 			v.Class = "after-failed-invoke"
 			res.Stats["diff.c16.after-failed-invoke"]++
 		}
 		res.Viol = append(res.Viol, v)
 	}
 	return res
+}
+
+// builtSetsDiffer: in some Invoke the two orders executed different sets of functions. That only
+// happens when a dependency failure cut the Invoke short (the Invoke failed, or an optional edge
+// swallowed a missing dependency): how far it got depends on the order of value-group feeders.
+func builtSetsDiffer(a, b *World, mapping []int) bool {
+	for k, ra := range a.ops {
+		if ra == nil || a.h.Ops[k].Kind != OpInvoke || k >= len(mapping) || mapping[k] < 0 || mapping[k] >= len(b.ops) || b.ops[mapping[k]] == nil {
+			continue
+		}
+		sa, sb := map[int]bool{}, map[int]bool{}
+		for _, e := range ra.Execs {
+			sa[e.Fn] = true
+		}
+		for _, e := range b.ops[mapping[k]].Execs {
+			sb[e.Fn] = true
+		}
+		if len(sa) != len(sb) {
+			return true
+		}
+		for f := range sa {
+			if !sb[f] {
+				return true
+			}
+		}
+	}
+	return false
 }
 
 // failedInvokeBefore: some Invoke before op index limit failed (what it had built before failing is cached).
